@@ -154,6 +154,24 @@ def check_config(ctx, F, tag):
                    "the argument reaches no unguarded arithmetic or unwrap: %s" % (alarms or "ok"))
             ctx.count("bitvector-query-entries" + tag)
     ctx.floor("bitvector-query-entries" + tag, 6)
+    # R6: RankSupport::new scans the words of the vector: the word count it clamps its per-block loop with is the number of words
+    # of a vector of parent.len() bits. Reported only for the two classic wrong counts (`len / 64 + 1`, `len / 64`); rounding-up
+    # forms (bits_to_words, div_round_up, (len + 63) / 64, the length of the word array) are accepted, others left undecided-silent.
+    rb = F.body("bit_vector::rank_support::RankSupport::new")
+    wrong = []
+    nsub = 0
+    for bi, si, st in rb.stmts():
+        if st["s"] == "assign" and st["rv"]["r"] == "bin" and st["rv"]["op"].startswith("Sub"):
+            a = core(rb.term_of_operand(st["rv"]["a"]))
+            bt = core(rb.term_of_operand(st["rv"]["b"]))
+            if bt[0] == "bin" and bt[1] == "Mul" and any(core(x)[0] == "const" and len(core(x)) > 2 and str(core(x)[2]).endswith("WORDS_PER_BLOCK") for x in (bt[2], bt[3])):
+                nsub += 1
+                is_len = lambda t: core(t)[0] == "call" and core(t)[1].endswith("::len") and core(core(t)[2][0])[:2] == ("param", 0)
+                floor_div = lambda t: core(t)[0] == "bin" and core(t)[1] in ("Div", "Shr") and is_len(core(t)[2]) and core(core(t)[3])[0] == "const" and core(core(t)[3])[1] in (64, 6)
+                if floor_div(a) or (a[0] == "bin" and a[1] == "Add" and ((floor_div(a[2]) and core(a[3])[:2] == ("const", 1)) or (floor_div(a[3]) and core(a[2])[:2] == ("const", 1)))):
+                    wrong.append((tstr(a)[:60], loc(st["sp"])))
+    ctx.ob("C01.R6.rank-support-word-count", rb.name + tag, loc(rb.raw["span"]), not wrong, "term-shape",
+           "%d `words - block * WORDS_PER_BLOCK` clamps; word count that is a truncating division of the bit length (+1): %s" % (nsub, wrong), nontrivial=False)
     co = F.body("<bit_vector::BitVector as ops::BitVec<'a>>::count_ones")
     ctx.ob("C01.R3.count-ones-is-cached-field", co.name + tag, loc(co.raw["span"]), self_path(co.term_of_local(0)) == ["ones"], "term-shape", "count_ones() = %s" % tstr(co.term_of_local(0)), nontrivial=False)
     ln = F.body("<bit_vector::BitVector as ops::BitVec<'a>>::len")
